@@ -1150,7 +1150,12 @@ func (sc *serverConn) wroteFrame(res frameWriteResult) {
 	closeStream := endsStream(wm.write)
 
 	if _, ok := wm.write.(handlerPanicRST); ok {
-		sc.closeStream(st, errHandlerPanicked)
+		// The stream may already have been closed (RST_STREAM from the
+		// peer, a stream error or a timeout) while this RST_STREAM frame
+		// was being written.
+		if st.state != stateClosed {
+			sc.closeStream(st, errHandlerPanicked)
+		}
 	}
 
 	// Reply (if requested) to the blocked ServeHTTP goroutine.
